@@ -258,6 +258,21 @@ Proof.
     unfold blank_feats. induction g as [|f fs IHg]; cbn; [reflexivity|]. rewrite IHg. reflexivity.
 Qed.
 
+Lemma set_feats_blank names fs : set_feats names (blank_feats fs) = set_feats names fs.
+Proof. unfold set_feats, blank_feats. rewrite map_map. reflexivity. Qed.
+
+Lemma set_features_blank h i names : set_features (blank_h h) i names = set_features h i names.
+Proof.
+  unfold set_features, blank_h. cbn [h_name h_rev h_feats h_subs]. rewrite set_feats_blank, map_map.
+  f_equal. apply map_ext. intros fs. apply set_feats_blank.
+Qed.
+
+Lemma blank_eq_parts x m : blank x = blank m ->
+  blank_h (y_mod x) = blank_h (y_mod m) /\ y_ns x = y_ns m /\ y_imports x = y_imports m.
+Proof.
+  intros H. split; [exact (f_equal y_mod H)|]. split; [exact (f_equal y_ns H)|exact (f_equal y_imports H)].
+Qed.
+
 (* ------------------------------------------------------------------------------------------------ *)
 (* the round trip                                                                                    *)
 (* ------------------------------------------------------------------------------------------------ *)
@@ -282,7 +297,11 @@ Section Roundtrip.
   | reach_refl m : reach m m
   | reach_step m i m' m'' : In i (y_imports m) -> In m' s -> denotes i m' -> reach m' m'' -> reach m m''.
 
-  Definition sub (x m : ymod) : Prop := x = m \/ x = blank m.
+  (* an entry x of a rebuilding context stands for module m of the original: the same source; it may be
+     implemented with any feature state only if m is implemented (the rebuild cannot undo implemented), and an
+     entry that is not implemented has no enabled feature *)
+  Definition sub (x m : ymod) : Prop :=
+    blank x = blank m /\ (y_impl x = true -> y_impl m = true) /\ (y_impl x = false -> x = blank x).
   Definition Inv (c : ctx) : Prop :=
     NoDup (map key_of c) /\ forall x, In x c -> exists m, In m s /\ sub x m.
   Definition ClosedEx (stack : list mkey) (c : ctx) : Prop :=
@@ -307,11 +326,18 @@ Section Roundtrip.
   Hypothesis H0closed : ClosedEx [] c0.
 
   Lemma sub_key x m : sub x m -> key_of x = key_of m.
-  Proof. intros [->| ->]; reflexivity. Qed.
+  Proof. intros [H _]. rewrite <- (key_blank x), <- (key_blank m), H. reflexivity. Qed.
   Lemma sub_imports x m : sub x m -> y_imports x = y_imports m.
-  Proof. intros [->| ->]; reflexivity. Qed.
+  Proof. intros [H _]. rewrite <- (imports_blank x), <- (imports_blank m), H. reflexivity. Qed.
   Lemma sub_blank x m : sub x m -> blank x = blank m.
-  Proof. intros [->| ->]; [reflexivity|apply blank_idem]. Qed.
+  Proof. intros [H _]. exact H. Qed.
+  Lemma sub_refl_impl m : y_impl m = true -> sub m m.
+  Proof. intros Hi. split; [reflexivity|]. split; [auto|]. intros H. congruence. Qed.
+  Lemma sub_blank_of ms m : blank ms = blank m -> sub (blank ms) m.
+  Proof.
+    intros H. split; [rewrite blank_idem; exact H|]. split; [rewrite impl_blank; discriminate|].
+    intros _. symmetry. apply blank_idem.
+  Qed.
 
   Lemma s_key_inj m m' : In m s -> In m' s -> key_of m = key_of m' -> m = m'.
   Proof. intros Hm Hm' Hk. exact (nodup_key_inj s m m' Hs_nodup Hm Hm' Hk). Qed.
@@ -325,7 +351,7 @@ Section Roundtrip.
   Qed.
 
   Lemma inv_key_in c x : Inv c -> In x c -> exists m, In m s /\ sub x m /\ key_of x = key_of m.
-  Proof. intros [_ H] Hx. destruct (H x Hx) as (m & Hm & Hs). exists m. repeat split; try assumption. apply sub_key. exact Hs. Qed.
+  Proof. intros [_ H] Hx. destruct (H x Hx) as (m & Hm & Hs). exists m. split; [exact Hm|]. split; [exact Hs|]. apply sub_key. exact Hs. Qed.
 
   (* lys_parse_load finds the module a request means: in the context when it is there, else in the sources *)
   Lemma resolve_spec c i m : Inv c -> In m s -> denotes i m ->
@@ -389,7 +415,7 @@ Section Roundtrip.
     - rewrite map_app. cbn [map]. rewrite key_blank, Hk.
       apply NoDup_app_one; assumption.
     - intros x Hx. apply in_app_iff in Hx. destruct Hx as [Hx|[<-|[]]]; [apply Hinv; exact Hx|].
-      exists m. split; [exact Hm|]. right. exact Hb.
+      exists m. split; [exact Hm|]. apply sub_blank_of. exact Hb.
   Qed.
 
   (* the depth first loading of a request that means m *)
@@ -475,7 +501,7 @@ Section Roundtrip.
 
   (* _lys_set_implemented with the described features makes the entry equal to the original module *)
   Lemma set_implemented_spec c m : Inv c -> In m s -> y_impl m = true -> In (key_of m) (map key_of c) ->
-    exists c', set_implemented c (key_of m) (yl_features m) = Ok c' /\ Inv c' /\ In m c' /\
+    exists c', set_implemented c (key_of m) (F_list (yl_features m)) = Ok c' /\ Inv c' /\ In m c' /\
                map key_of c' = map key_of c /\
                (forall x, In x c -> key_of x <> key_of m -> In x c') /\
                (forall x, In x c' -> In x c \/ x = m) /\
@@ -489,29 +515,30 @@ Section Roundtrip.
     assert (m' = m) as -> by (apply s_key_inj; try assumption; rewrite <- Hkx; symmetry; apply sub_key; exact Hs').
     unfold yl_features. rewrite Hi.
     set (names := enabled_names (concat (groups (y_mod m)))).
-    assert (Hhas : forallb (has_feature (y_mod x)) names = true).
-    { apply forallb_forall. intros n Hn. destruct Hs' as [->| ->].
-      - apply has_feature_enabled. exact Hn.
-      - unfold blank. cbn [y_mod]. rewrite has_feature_blank. apply has_feature_enabled. exact Hn. }
+    assert (Hhas : fspec_ok (y_mod x) (F_list names) = true).
+    { cbn [fspec_ok]. apply forallb_forall. intros n Hn.
+      destruct (blank_eq_parts x m (sub_blank x m Hs')) as (Hb1 & _ & _).
+      rewrite <- has_feature_blank, Hb1, has_feature_blank. apply has_feature_enabled. exact Hn. }
     rewrite Hhas. cbn [negb].
     assert (Hden : negb (y_impl x) && existsb (fun x0 => named (fst (key_of m)) x0 && y_impl x0) c = false).
     { destruct (y_impl x) eqn:Hix; [reflexivity|]. cbn [negb andb].
       apply not_true_is_false. intros E. apply existsb_exists in E. destruct E as (y & Hy & E).
       apply andb_true_iff in E. destruct E as [Hny Hiy]. apply named_eq in Hny. cbn [key_of fst] in Hny.
       destruct (Hinv' y Hy) as (my & Hmy & Hsy).
-      assert (y = my) as ->. { destruct Hsy as [->| ->]; [reflexivity|]. rewrite impl_blank in Hiy. discriminate. }
+      assert (Himy : y_impl my = true) by (apply Hsy; exact Hiy).
+      assert (Hnmy : y_name my = y_name m).
+      { destruct (key_name_rev _ _ (sub_key y my Hsy)) as [Hn1 _]. congruence. }
       assert (my = m) as -> by (apply Himpl1; assumption).
-      assert (x = m) as -> by (apply (nodup_key_inj c); assumption).
+      assert (y = x) as -> by (apply (nodup_key_inj c); try assumption; rewrite (sub_key _ _ Hsy); symmetry; exact Hkx).
       congruence. }
     rewrite Hden.
     set (upd := fun x0 => if beq_key (key_of m) (key_of x0)
-                          then mkymod (set_features (y_mod x0) true names) (y_ns x0) (y_imports x0) else x0).
+                          then mkymod (apply_fspec (y_mod x0) true (F_list names)) (y_ns x0) (y_imports x0) else x0).
     assert (Hupd_x : upd x = m).
-    { unfold upd. rewrite Hkx, beq_key_refl.
-      destruct (set_features_restore (y_mod m) Hi (Hfeat m Hm)) as [R1 R2].
-      destruct Hs' as [->| ->].
-      - fold names in R1. rewrite R1. destruct m; reflexivity.
-      - unfold blank. cbn [y_mod y_ns y_imports]. fold names in R2. rewrite R2. destruct m; reflexivity. }
+    { unfold upd. rewrite Hkx, beq_key_refl. cbn [apply_fspec].
+      destruct (set_features_restore (y_mod m) Hi (Hfeat m Hm)) as [_ R2].
+      destruct (blank_eq_parts x m (sub_blank x m Hs')) as (Hb1 & Hb2 & Hb3).
+      rewrite <- set_features_blank, Hb1, Hb2, Hb3. fold names in R2. rewrite R2. destruct m; reflexivity. }
     assert (Hupd_o : forall y, In y c -> y <> x -> upd y = y).
     { intros y Hy Hne. unfold upd. destruct (beq_key (key_of m) (key_of y)) eqn:E; [|reflexivity].
       apply beq_key_eq in E. exfalso. apply Hne. apply (nodup_key_inj c); congruence. }
@@ -531,7 +558,7 @@ Section Roundtrip.
     split; [split|]; [| |split; [|split; [|split; [|split]]]].
     - rewrite Hkeys. exact Hnd.
     - intros y Hy. apply in_map_iff in Hy. destruct Hy as (y0 & <- & Hy0).
-      destruct (Hcase y0 Hy0) as [[-> ->]|[_ ->]]; [exists m; split; [exact Hm|left; reflexivity]|].
+      destruct (Hcase y0 Hy0) as [[-> ->]|[_ ->]]; [exists m; split; [exact Hm|apply sub_refl_impl; exact Hi]|].
       apply Hinv'. exact Hy0.
     - rewrite <- Hupd_x. apply in_map. exact Hx.
     - exact Hkeys.
@@ -552,7 +579,7 @@ Section Roundtrip.
   (* ly_ctx_load_module for the entry of an implemented module m *)
   Lemma load_module_spec c m : Inv c -> ClosedEx [] c -> (forall k, In k (map key_of c0) -> In k (map key_of c)) ->
     In m s -> y_impl m = true ->
-    exists c', load_module (S (length src)) src c (y_name m) (y_rev m) (yl_features m) = Ok c' /\
+    exists c', load_module (S (length src)) src c (y_name m) (y_rev m) (F_list (yl_features m)) = Ok c' /\
                Inv c' /\ ClosedEx [] c' /\ (forall k, In k (map key_of c) -> In k (map key_of c')) /\ In m c' /\
                (forall x, In x c -> key_of x <> key_of m -> In x c').
   Proof.
@@ -615,7 +642,9 @@ Section Roundtrip.
       destruct (y_impl m) eqn:Hi.
       + assert (x = m) as -> by (apply (nodup_key_inj c'); [apply Hinv|exact Hx|apply Himpl_in; assumption|exact Hkx]).
         exact Hm.
-      + destruct Hs as [->| ->]; [exact Hm|]. rewrite (Hblank m Hm Hi). exact Hm.
+      + destruct Hs as (Hb & Him & Hbx).
+        assert (Hix : y_impl x = false) by (destruct (y_impl x); [specialize (Him eq_refl); congruence|reflexivity]).
+        rewrite (Hbx Hix), Hb, (Hblank m Hm Hi). exact Hm.
     - intros Hm. destruct (y_impl x) eqn:Hi; [apply Himpl_in; assumption|].
       assert (Hkin : In (key_of x) (map key_of c')).
       { destruct (Hreach x Hm Hi) as [H0k|(m0 & Hm0 & Hi0 & Hr)]; [apply Hk; exact H0k|].
@@ -623,7 +652,9 @@ Section Roundtrip.
       apply in_map_iff in Hkin. destruct Hkin as (y & Hky & Hy).
       destruct (inv_key_in c' y Hinv Hy) as (m & Hm' & Hs & Hkm).
       assert (m = x) as -> by (apply s_key_inj; congruence).
-      destruct Hs as [->| ->]; [exact Hy|]. rewrite (Hblank x Hm Hi) in Hy. exact Hy.
+      destruct Hs as (Hb & Him & Hbx).
+      assert (Hiy : y_impl y = false) by (destruct (y_impl y); [specialize (Him eq_refl); congruence|reflexivity]).
+      rewrite (Hbx Hiy), Hb, (Hblank x Hm Hi) in Hy. exact Hy.
   Qed.
 End Roundtrip.
 
@@ -712,9 +743,9 @@ Ltac in_cases :=
 Lemma e_unamb_b : unamb e_src e_s e_b None.
 Proof. intros x Hx Hn. unfold e_s, e_src in Hx. in_cases; try reflexivity; cbn in Hn; discriminate. Qed.
 
-Lemma e_rt_ok : rt_ok e_src e_s [] e_rk.
+Lemma e_rt_ok_c0 c0 : Inv e_s c0 -> ClosedEx e_src e_s [] c0 -> rt_ok e_src e_s c0 e_rk.
 Proof.
-  constructor.
+  intros HI HC. constructor.
   - cbn. repeat constructor; cbn; intuition discriminate.
   - cbn. repeat constructor; cbn; intuition discriminate.
   - intros m Hm. right. unfold e_s in Hm. in_cases.
@@ -736,9 +767,40 @@ Proof.
         [left; reflexivity|right; left; reflexivity|unfold denotes; simpl; reflexivity|apply reach_refl].
     + eapply reach_step with (i := (e_b, None)) (m' := e_B);
         [right; left; reflexivity|right; right; left; reflexivity|split; [reflexivity|exact e_unamb_b]|apply reach_refl].
-  - split; [constructor|intros x []].
-  - intros x [].
+  - exact HI.
+  - exact HC.
 Qed.
+
+Lemma e_rt_ok : rt_ok e_src e_s [] e_rk.
+Proof. apply e_rt_ok_c0; [split; [constructor|intros x []]|intros x []]. Qed.
+
+(* a populated rebuilding context: x is already implemented with another feature state (f, h off, g on) *)
+Definition e_Xpre : ymod :=
+  mkymod (mkhmod e_x (Some e_r20) true [mkfeat [102] false; mkfeat [103] true] [[mkfeat [104] false]]) (e_ns e_x)
+         [(e_a, Some e_r19); (e_b, None)].
+Definition e_c0pre : ctx := [e_Xpre; e_A19; e_B].
+
+Lemma e_rt_ok_pre : rt_ok e_src e_s e_c0pre e_rk.
+Proof.
+  apply e_rt_ok_c0.
+  - split; [cbn; repeat constructor; cbn; intuition discriminate|].
+    intros x Hx. unfold e_c0pre in Hx. in_cases.
+    + exists (e_X true true). split; [left; reflexivity|]. split; [reflexivity|]. split; [auto|discriminate].
+    + exists e_A19. split; [right; left; reflexivity|]. split; [reflexivity|]. split; [discriminate|reflexivity].
+    + exists e_B. split; [right; right; left; reflexivity|]. split; [reflexivity|]. split; [discriminate|reflexivity].
+  - intros x Hx _ i Hi m' Hm' _. unfold e_s in Hm'. in_cases; cbn; auto.
+Qed.
+
+Lemma e_rebuild_pre : rebuild (describe [] e_s) e_src e_c0pre = Ok e_s.
+Proof. vm_compute. reflexivity. Qed.
+
+(* the features argument matters in a populated context: the empty array (an entry without feature leaves)
+   disables g, NULL would leave it enabled *)
+Lemma e_keep_vs_empty :
+  load_module 5 e_src e_c0pre e_x (Some e_r20) (F_list []) = Ok [e_X true false; e_A19; e_B] /\
+  load_module 5 e_src e_c0pre e_x (Some e_r20) F_keep = Ok e_c0pre /\
+  load_module 5 e_src e_c0pre e_x (Some e_r20) F_all <> load_module 5 e_src e_c0pre e_x (Some e_r20) (F_list []).
+Proof. split; [vm_compute; reflexivity|]. split; [vm_compute; reflexivity|vm_compute; discriminate]. Qed.
 
 (* and the model computes: the rebuild of this context from its description gives the same list *)
 Lemma e_rebuild : rebuild (describe [] e_s) e_src [] = Ok e_s.
